@@ -153,32 +153,65 @@ def source_audit():
     return hits
 
 
-def run_impl(lines, per_case_timeout=5.0):
-    """Runs the harness on the case lines. A case that kills the process is recorded as `abort`, one that
-    exceeds the watchdog as `hang`; the remaining cases are run in a fresh process."""
+def _limit_child():
+    # a runaway case (e.g. a walker that appends forever) must not exhaust the machine: 6 GiB address space
+    import resource
+    resource.setrlimit(resource.RLIMIT_AS, (6 << 30, 6 << 30))
+
+
+def run_impl(lines, per_case_timeout=10.0):
+    """Runs the harness on the case lines, one answer per line. A case that kills the process (abort inside
+    extern "C", allocation failure under the memory cap) is recorded as `abort`, one that produces no answer
+    within the watchdog as `hang`; the remaining cases are run in a fresh process."""
+    import selectors
+    import threading
     results = []
-    i = 0
     n = len(lines)
-    while i < n:
-        chunk = lines[i:]
-        p = subprocess.Popen([HBIN, "run"], stdin=subprocess.PIPE, stdout=subprocess.PIPE, stderr=subprocess.DEVNULL, text=True, env=ENV)
-        budget = 30.0 + per_case_timeout * 0.002 * len(chunk) + per_case_timeout
+    while len(results) < n:
+        chunk = lines[len(results):]
+        p = subprocess.Popen([HBIN, "run"], stdin=subprocess.PIPE, stdout=subprocess.PIPE, stderr=subprocess.DEVNULL,
+                             env=ENV, preexec_fn=_limit_child)
+
+        def feed(proc=p, data=("\n".join(chunk) + "\n").encode()):
+            try:
+                proc.stdin.write(data)
+                proc.stdin.close()
+            except (BrokenPipeError, OSError):
+                pass
+        t = threading.Thread(target=feed, daemon=True)
+        t.start()
+        sel = selectors.DefaultSelector()
+        sel.register(p.stdout, selectors.EVENT_READ)
+        buf = b""
+        got = []
+        status = "exit"
+        last_progress = time.time()
+        while True:
+            ev = sel.select(timeout=1.0)
+            if ev:
+                data = os.read(p.stdout.fileno(), 1 << 20)
+                if not data:
+                    break
+                buf += data
+                while b"\n" in buf:
+                    line, buf = buf.split(b"\n", 1)
+                    got.append(line.decode("utf-8", "replace"))
+                    last_progress = time.time()
+            elif time.time() - last_progress > per_case_timeout:
+                status = "hang"
+                p.kill()
+                break
+        sel.close()
         try:
-            out, _ = p.communicate("\n".join(chunk) + "\n", timeout=budget)
-            got = out.splitlines()
-            status = "exit"
+            p.wait(timeout=10)
         except subprocess.TimeoutExpired:
             p.kill()
-            out, _ = p.communicate()
-            got = out.splitlines()
-            status = "hang"
         results.extend(got[: len(chunk)])
         if len(got) >= len(chunk):
             break
         # the case after the last answered one killed or hung the process
         results.append("hang" if status == "hang" else "abort")
-        i = len(results)
-    return results
+    return results[:n]
 
 
 def run_model(lines):
